@@ -25,6 +25,14 @@ CHECKS = {
          "The package clock is an owned choice (overlay routes time.Now/Until/Since to the harness): every expiry of a 53-element catalogue around a fixed instant T (exact-schema instants incl. T-1s/T/T+1s, other date layouts, offsets, impossible dates, junk) is verified in both wrappers through both entry points on an otherwise accepting chain with a marker inspection; every sequence of 2-3 verifications with the clock at T-1h/T/T+1h checks that no instant is remembered between calls; four real-clock cases far from now show the shipped path reads the clock. accept <=> the reference says well-formed and future; on reject no inspection ran.",
          "Trusted: reference calendar arithmetic; overlay rewriter. Outside: instants not in the catalogue; clock reads hidden in dependencies.",
          "DESIGN.md §3 C06"),
+ "C07": ("bounded-exhaustive enumeration of certificate chain shapes x constraint lists and of attribute-value x constraint products, against a constructive oracle (chain validity by construction + set-based constraint matcher)",
+         "29 chain shapes (0-2 intermediates located in layout / from caller / missing, expired, not yet valid, foreign and same-subject roots, foreign chain whose intermediate the caller supplies, non-CA issuer, absent root, two roots) x 9 constraint lists are checked at Step.CheckCertConstraints and end-to-end through InTotoVerify on a certificate-signed link; each attribute (thorough: each pair) deviates from an all-wildcard constraint over 4 value lists x 11 constraint lists; 7 root constraints x valid/invalid chains. Everything is enumerated, certificates are real X.509 minted per run.",
+         "Trusted: crypto/x509 for minting; constructive chain validity. Outside: >= 3 simultaneously deviating attributes, EKU restrictions.",
+         "DESIGN.md §3 C07"),
+ "C18": ("bounded-exhaustive enumeration of position x text x dictionary, each under all dictionary iteration orders (owned map-order seam), differential against a reference substitution",
+         "Every string leaf of a 2-step/2-inspection layout (found by reflection, so new fields are covered automatically) x 30 marker texts x 20 dictionaries (incl. values containing markers and seven invalid names) is run through SubstituteParameters under every iteration order of the dictionary and compared leaf by leaf with a one-pass reference applied to the four target fields only.",
+         "Trusted: reference substitution; overlay rewriter. Outside: texts/dictionaries beyond the catalogues.",
+         "DESIGN.md §3 C18"),
 }
 
 NOT_YET = "check not built yet in this session (planned, see DESIGN.md §3); will be claimed once its driver exists"
